@@ -12,7 +12,7 @@
 From Coq Require Import ZArith List Znumtheory Lia.
 From PySnark.Base Require Import FieldZ.
 From PySnark.Model Require Import Lc Sym Gadgets Api Prog.
-From PySnark.Proofs Require Import Sound Meta Adv AdvGadgets.
+From PySnark.Proofs Require Import Sound Meta Adv AdvGadgets AdvOps.
 Import ListNotations.
 Open Scope Z_scope.
 
@@ -141,9 +141,40 @@ Theorem C02_model_select : forall cnd t f r s' cs, run (ite_lc cnd t f) s = (inl
 Proof. exact (select_forced Hp w s). Qed.
 Theorem C02_model_truediv : forall x y r s' cs, run (truediv x y) s = (inl r, s', cs) -> sat cs -> ~ ew y == 0 -> ew y * ew r == ew x.
 Proof. exact (truediv_forced w s G). Qed.
+(* ---- one level up: the Python operators on two secret integers, through the model of the operator dispatch ---- *)
+Local Notation isb := (AdvOps.isb w).
+Local Notation islc := (AdvOps.islc w).
+Theorem C02_op_lt : forall x y r s' cs vx vy, run (pyop c OLt (PLC x) (PLC y)) s = (inl r, s', cs) -> sat cs ->
+  2 ^ (Z.of_nat (nbits c) + 1) <= p -> ew x == vx -> ew y == vy -> - 2 ^ Z.of_nat (nbits c) <= vy - vx - 1 < 2 ^ Z.of_nat (nbits c) ->
+  isb (fun b => b == (if vx <? vy then 1 else 0)) r.
+Proof. exact (op_lt_forced Hp w W0 c s G). Qed.
+Theorem C02_op_le : forall x y r s' cs vx vy, run (pyop c OLe (PLC x) (PLC y)) s = (inl r, s', cs) -> sat cs ->
+  2 ^ (Z.of_nat (nbits c) + 1) <= p -> ew x == vx -> ew y == vy -> - 2 ^ Z.of_nat (nbits c) <= vy - vx < 2 ^ Z.of_nat (nbits c) ->
+  isb (fun b => b == (if vx <=? vy then 1 else 0)) r.
+Proof. exact (op_le_forced Hp w W0 c s G). Qed.
+Theorem C02_op_eq : forall x y r s' cs, run (pyop c OEq (PLC x) (PLC y)) s = (inl r, s', cs) -> sat cs ->
+  isb (fun b => (ew x == ew y -> b == 1) /\ (~ ew x == ew y -> b == 0)) r.
+Proof. exact (op_eq_forced Hp w W0 c s). Qed.
+Theorem C02_op_mul : forall x y r s' cs, run (pyop c OMul (PLC x) (PLC y)) s = (inl r, s', cs) -> sat cs -> islc (fun v => v == ew x * ew y) r.
+Proof. exact (op_mul_forced w c s). Qed.
+Theorem C02_op_add : forall x y r s' cs, run (pyop c OAdd (PLC x) (PLC y)) s = (inl r, s', cs) -> islc (fun v => v = ew x + ew y) r /\ cs = [].
+Proof. exact (op_add_forced w c s G). Qed.
+Theorem C02_op_sub : forall x y r s' cs, run (pyop c OSub (PLC x) (PLC y)) s = (inl r, s', cs) -> islc (fun v => v = ew x - ew y) r /\ cs = [].
+Proof. exact (op_sub_forced w c s G). Qed.
+Theorem C02_op_select : forall o cb t f r s' cs, same_val (PLC t) (PLC f) = false ->
+  run (if_then_else c (pyop c) (PBool o cb) (PLC t) (PLC f)) s = (inl r, s', cs) -> sat cs -> Sound.isbit p (ew cb) ->
+  islc (fun v => (ew cb == 1 /\ v == ew t) \/ (ew cb == 0 /\ v == ew f)) r.
+Proof. exact (op_select_forced Hp w c s). Qed.
 End C02_model.
 
 Print Assumptions C02_model_lt.
+Print Assumptions C02_op_lt.
+Print Assumptions C02_op_le.
+Print Assumptions C02_op_eq.
+Print Assumptions C02_op_mul.
+Print Assumptions C02_op_add.
+Print Assumptions C02_op_sub.
+Print Assumptions C02_op_select.
 Print Assumptions C02_model_bit_or.
 Print Assumptions C02_model_bit_xor.
 Print Assumptions C02_model_ne.
